@@ -22,6 +22,7 @@ import ast
 from fractions import Fraction
 
 from .core import AnalysisError, unparse
+from .api import is_helper
 from .poly import Rat, as_rat, sqrt_of, func_atom, atom_info, split_content, _frac_gcd, p_content, single_atom, mono_items
 
 
@@ -186,6 +187,20 @@ def materialise(v):
     return None
 
 
+def dict_key(v):
+    """hashable python key of a constant value (numbers as int / Fraction, tuples recursively)"""
+    if isinstance(v, (str, bool)) or v is None:
+        return v
+    if isinstance(v, tuple):
+        return tuple(dict_key(x) for x in v)
+    if isinstance(v, Rat) and v.is_const():
+        c = v.const_value()
+        return int(c) if c.denominator == 1 else c
+    if isinstance(v, int):
+        return v
+    return v
+
+
 def const_int(v):
     if isinstance(v, bool):
         return None
@@ -209,6 +224,97 @@ class RaiseReached(AnalysisError):
 HAZARDS = []       # (kind, function name, line, text) recorded by every Evaluator of the run
 
 
+class NeedSign(Exception):
+    """an undecided comparison on the analysed path: the sign of `expr` (canonical key `key`) is needed"""
+
+    def __init__(self, key, expr, node=None):
+        Exception.__init__(self, "sign of %s needed" % key)
+        self.key = key
+        self.expr = expr
+        self.node = node
+
+
+def canon_sign(d: Rat):
+    """d = flip * (positive content) * prim with the leading coefficient of prim positive: sign(d) = flip * sign(prim)"""
+    from .poly import _sorted_monos
+    _content, _q, _ks, prim = split_content(d)
+    flip = 1
+    if prim.num:
+        lead = prim.num[_sorted_monos(prim.num)[0]]
+        if lead < 0:
+            prim = -prim
+            flip = -1
+    return flip, prim
+
+
+class SignOracle:
+    """Trace partitioning over the signs of the expressions a path compares.  `assume` maps canonical keys to
+    -1 / 0 / +1.  A comparison whose sign is neither assumed nor derivable (a monomial in atoms of assumed sign)
+    raises NeedSign; enumerate_signs() then forks the run three ways."""
+
+    def __init__(self, assume=None, fixed=None):
+        self.assume = dict(assume or {})
+        self.fixed = fixed                # callable(prim) -> sign | None: facts of the rule (positivity of a radius, ...)
+        self.used = {}
+
+    def __call__(self, prim, node=None):
+        k = prim.key()
+        if self.fixed is not None:
+            s = self.fixed(prim)
+            if s is not None:
+                return s
+        if k in self.assume:
+            self.used[k] = self.assume[k]
+            return self.assume[k]
+        s = self.derive(prim)
+        if s is not None:
+            return s
+        raise NeedSign(k, prim, node)
+
+    def derive(self, prim):
+        if len(prim.num) != 1 or len(prim.den) != 1:
+            return None
+        sgn = 1
+        for poly in (prim.num, prim.den):
+            (m, c), = poly.items()
+            if c < 0:
+                sgn = -sgn
+            for a, e in mono_items(m):
+                k = Rat.atom(a).key()
+                if k not in self.assume:
+                    return None
+                sa = self.assume[k]
+                self.used[k] = sa
+                if sa == 0:
+                    return 0
+                if e % 2:
+                    sgn *= sa
+        return sgn
+
+
+def enumerate_signs(run, max_paths=729, fixed=None):
+    """run(oracle) is executed under every assignment of signs it demands; -> [(assumptions, result)]"""
+    out = []
+    stack = [{}]
+    n = 0
+    while stack:
+        assume = stack.pop()
+        o = SignOracle(assume, fixed)
+        n += 1
+        if n > 4 * max_paths:
+            raise AnalysisError("E3: more than %d sign cases on the analysed paths" % max_paths)
+        try:
+            r = run(o)
+        except NeedSign as need:
+            for sg in (1, 0, -1):
+                stack.append(dict(assume, **{need.key: sg}))
+            continue
+        out.append((dict(assume), r))
+        if len(out) > max_paths:
+            raise AnalysisError("E3: more than %d sign cases on the analysed paths" % max_paths)
+    return out
+
+
 class _Return(Exception):
     def __init__(self, value):
         self.value = value
@@ -227,8 +333,10 @@ ELEMENTWISE = {"cos", "sin", "tan", "exp", "arccos", "arcsin", "arctan", "sqrt",
 
 
 class Evaluator:
-    def __init__(self, mod, inline=True, branch_policy=None, call_policy=None, max_depth=6, import_policy=None):
+    def __init__(self, mod, inline=True, branch_policy=None, call_policy=None, max_depth=6, import_policy=None,
+                 sign_policy=None):
         self.mod = mod
+        self.sign_policy = sign_policy    # (canonical difference, node) -> -1 | 0 | 1 | None  (may raise NeedSign)
         self.inline = inline              # True: every module-level function; or a set of names
         self.branch_policy = branch_policy
         self.call_policy = call_policy    # (name, args, kwargs, node) -> value or NotImplemented
@@ -340,8 +448,12 @@ class Evaluator:
             return
         if isinstance(st, ast.For):
             it = self.eval(st.iter, env)
+            if isinstance(it, Opaque) and materialise(it) is not None:
+                it = materialise(it)
             if isinstance(it, Arr):
-                it = it.data
+                it = [Arr(x) if isinstance(x, list) else x for x in it.data]
+            if isinstance(it, dict):
+                it = list(it)
             if not isinstance(it, (list, tuple, range)):
                 raise AnalysisError("E3: loop over a non-constant iterable (line %d)" % st.lineno)
             if len(it) > 256:
@@ -364,6 +476,9 @@ class Evaluator:
         if isinstance(st, ast.Raise):
             raise RaiseReached(st)
         if isinstance(st, (ast.Import, ast.ImportFrom)):
+            return
+        if isinstance(st, ast.FunctionDef) and not st.decorator_list:
+            env[st.name] = ("closure", st, env)
             return
         raise AnalysisError("E3: unsupported statement %s (line %d)" % (type(st).__name__, st.lineno))
 
@@ -547,9 +662,27 @@ class Evaluator:
             return {"True": True, "False": False, "None": None}[node.id]
         if node.id in self.mod.imports:
             return ("import", self.mod.imports[node.id])
-        if node.id in ("range", "len", "abs", "float", "int", "list", "tuple", "min", "max", "sum"):
+        if node.id in getattr(self.mod, "assigns", {}):
+            return self.module_constant(node.id)
+        if node.id in ("range", "len", "abs", "float", "int", "list", "tuple", "min", "max", "sum", "zip", "enumerate",
+                       "reversed", "sorted", "all", "any", "round"):
             return ("builtin", node.id)
         raise AnalysisError("E3: unbound name %s (line %d)" % (node.id, node.lineno))
+
+    def module_constant(self, name):
+        """a module-level `NAME = expression` evaluated in the module scope (memoised per evaluator; a fresh copy of
+        mutable values is handed out so that one analysed call cannot leak stores into another)"""
+        cache = self.__dict__.setdefault("_modconst", {})
+        if name not in cache:
+            if name in self.__dict__.setdefault("_modconst_busy", set()):
+                raise AnalysisError("E3: module constant %s is defined in terms of itself" % name)
+            self._modconst_busy.add(name)
+            try:
+                cache[name] = self.eval(self.mod.assigns[name].value, {})
+            finally:
+                self._modconst_busy.discard(name)
+        v = cache[name]
+        return v.copy() if isinstance(v, Arr) else v
 
     def e_List(self, node, env):
         return [self.eval(e, env) for e in node.elts]
@@ -693,6 +826,14 @@ class Evaluator:
             # `x != None` with x a symbolic value: x is not None
             r = (a is None and b is None)
             return r if isinstance(op, ast.Eq) else not r
+        if self.sign_policy is not None and isinstance(a, (Rat, int, float, Fraction)) and isinstance(b, (Rat, int, float, Fraction)) \
+                and not isinstance(a, bool) and not isinstance(b, bool):
+            d = scalar(a) - scalar(b)
+            if not d.is_const():
+                flip, prim = canon_sign(d)
+                sg = self.sign_policy(prim, node)
+                if sg is not None:
+                    a, b = Rat.const(flip * sg), Rat.const(0)
         x, y = norm(a), norm(b)
         try:
             if isinstance(op, ast.Eq):
@@ -723,6 +864,91 @@ class Evaluator:
                 return True
         return is_and
 
+    def _comp_envs(self, generators, env):
+        """environments of a comprehension over constant iterables, in iteration order"""
+        envs = [dict(env)]
+        for g in generators:
+            if g.is_async:
+                raise AnalysisError("E3: async comprehension (line %d)" % g.iter.lineno)
+            nxt = []
+            for e in envs:
+                it = self.eval(g.iter, e)
+                if isinstance(it, Arr):
+                    it = it.data
+                elif isinstance(it, Opaque):
+                    m = materialise(it)
+                    if m is None:
+                        raise AnalysisError("E3: comprehension over a value of unknown length (line %d)" % g.iter.lineno)
+                    it = m.data
+                if isinstance(it, dict):
+                    it = list(it)
+                if not isinstance(it, (list, tuple, range, str)):
+                    raise AnalysisError("E3: comprehension over a non-constant iterable (line %d)" % g.iter.lineno)
+                if len(it) > 4096:
+                    raise AnalysisError("E3: comprehension too long to unroll (line %d)" % g.iter.lineno)
+                for x in it:
+                    e2 = dict(e)
+                    if isinstance(x, list):
+                        x = Arr(x)
+                    self.assign(g.target, x if not isinstance(x, int) or isinstance(x, bool) else Rat.const(x), e2)
+                    if all(self.decide(c, e2) for c in g.ifs):
+                        nxt.append(e2)
+            envs = nxt
+        return envs
+
+    def e_ListComp(self, node, env):
+        return [self.eval(node.elt, e) for e in self._comp_envs(node.generators, env)]
+
+    e_GeneratorExp = e_ListComp
+
+    def e_DictComp(self, node, env):
+        out = {}
+        for e in self._comp_envs(node.generators, env):
+            out[dict_key(self.eval(node.key, e))] = self.eval(node.value, e)
+        return out
+
+    def e_Dict(self, node, env):
+        out = {}
+        for k, v in zip(node.keys, node.values):
+            if k is None:
+                raise AnalysisError("E3: dict unpacking (line %d)" % node.lineno)
+            out[dict_key(self.eval(k, env))] = self.eval(v, env)
+        return out
+
+    def e_Lambda(self, node, env):
+        return ("closure", node, env)
+
+    def call_closure(self, clo, args, kwargs, node):
+        _k, fn, cenv = clo
+        a = fn.args
+        if a.vararg or a.kwarg or a.kwonlyargs or a.posonlyargs:
+            raise AnalysisError("E3: unsupported signature of a local function (line %d)" % fn.lineno)
+        params = [x.arg for x in a.args]
+        env = dict(cenv)
+        nd = len(a.defaults)
+        for i, p in enumerate(params):
+            if i < len(args):
+                env[p] = args[i]
+            elif p in kwargs:
+                env[p] = kwargs[p]
+            else:
+                j = i - (len(params) - nd)
+                if j < 0:
+                    raise AnalysisError("E3: missing argument %s of a local function (line %d)" % (p, node.lineno))
+                env[p] = self.eval(a.defaults[j], cenv)
+        if isinstance(fn, ast.Lambda):
+            return self.eval(fn.body, env)
+        if self.depth >= self.max_depth:
+            raise AnalysisError("E3: inlining depth exceeded at local function %s" % fn.name)
+        self.depth += 1
+        try:
+            self.exec_block(fn.body, env)
+        except _Return as r:
+            return r.value
+        finally:
+            self.depth -= 1
+        return None
+
     def e_IfExp(self, node, env):
         return self.eval(node.body if self.decide(node.test, env) else node.orelse, env)
 
@@ -732,8 +958,8 @@ class Evaluator:
             # a table of another module indexed by a (symbolic) key: opaque row
             return Opaque("%s[%s]" % (base[1], vkey(self.eval(node.slice, env))))
         if isinstance(base, dict):
-            k = self.eval(node.slice, env)
-            if k not in base:
+            k = dict_key(self.eval(node.slice, env))
+            if isinstance(k, Rat) or k not in base:
                 raise AnalysisError("E3: key %r not in the modelled dictionary (line %d)" % (k, node.lineno))
             return base[k]
         return self.subscript(base, self.index_of(node.slice, env), node)
@@ -798,10 +1024,15 @@ class Evaluator:
                 return self.opaque_call(name, args, kwargs, node)
             if kind == "method":
                 return self.method_call(f[1], f[2], args, kwargs, node)
+            if kind == "closure":
+                return self.call_closure(f, args, kwargs, node)
         raise AnalysisError("E3: call of `%s` unsupported (line %d)" % (unparse(node.func)[:40], node.lineno))
 
     # ---------------------------------------------------------------- calls
     def module_call(self, name, args, kwargs, node):
+        if is_helper(self.mod, name):
+            # not an anchor of the pinned API: seen through, invisible to call policies and call logs
+            return self._call_fn(self.mod.func(name), args, kwargs)
         self.calls.append((name, [vkey(a) for a in args], node.lineno))
         if self.call_policy is not None:
             r = self.call_policy(name, args, kwargs, node)
@@ -850,25 +1081,76 @@ class Evaluator:
                 self.trace.append(("clip-assumed-inactive", name, syms[0].key()))
                 return syms[0]
             raise AnalysisError("E3: %s of several non-constants (line %d)" % (name, node.lineno))
-        if name == "sum":
+        if name == "sum" and 1 <= len(args) <= 2:
             v = args[0]
             if isinstance(v, Arr):
-                v = v.data
-            tot = Rat.const(0)
+                v = [Arr(x) if isinstance(x, list) else x for x in v.data]
+            elif isinstance(v, Opaque):
+                m = materialise(v)
+                if m is None:
+                    return Opaque("sum(%s)" % vkey(v))
+                v = [Arr(x) if isinstance(x, list) else x for x in m.data]
+            tot = args[1] if len(args) == 2 else Rat.const(0)
             for x in v:
-                tot = tot + scalar(x)
+                tot = self.binop(ast.Add(), tot, x, node)
             return tot
+        if name in ("zip", "enumerate", "reversed", "sorted", "all", "any"):
+            seqs = []
+            for v in args:
+                if isinstance(v, Arr):
+                    v = [Arr(x) if isinstance(x, list) else x for x in v.data]
+                elif isinstance(v, Opaque):
+                    m = materialise(v)
+                    if m is None:
+                        raise AnalysisError("E3: %s over a value of unknown length (line %d)" % (name, node.lineno))
+                    v = [Arr(x) if isinstance(x, list) else x for x in m.data]
+                if isinstance(v, dict):
+                    v = list(v)
+                if not isinstance(v, (list, tuple, str)):
+                    raise AnalysisError("E3: %s over a non-sequence (line %d)" % (name, node.lineno))
+                seqs.append(list(v))
+            if name == "zip":
+                return [tuple(t) for t in zip(*seqs)]
+            if name == "enumerate" and len(seqs) == 1:
+                start = const_int(kwargs.get("start", 0)) or 0
+                return [(Rat.const(i + start), x) for i, x in enumerate(seqs[0])]
+            if name == "reversed" and len(seqs) == 1:
+                return list(reversed(seqs[0]))
+            if name in ("all", "any") and len(seqs) == 1 and all(isinstance(x, bool) for x in seqs[0]):
+                return all(seqs[0]) if name == "all" else any(seqs[0])
+            if name == "sorted" and len(seqs) == 1 and not kwargs:
+                keys = []
+                for x in seqs[0]:
+                    ci = x if isinstance(x, str) else (scalar(x).const_value() if isinstance(x, Rat) and x.is_const() else None)
+                    if ci is None:
+                        raise AnalysisError("E3: sorted() of non-constants (line %d)" % node.lineno)
+                    keys.append(ci)
+                order = sorted(range(len(keys)), key=lambda i: keys[i])
+                return [seqs[0][i] for i in order]
         raise AnalysisError("E3: builtin %s unsupported (line %d)" % (name, node.lineno))
 
     def method_call(self, base, attr, args, kwargs, node):
         if attr == "dot" and len(args) == 1:
             return self.np_dot(base, args[0], node)
         if attr == "get" and isinstance(base, dict) and 1 <= len(args) <= 2:
-            return base.get(args[0], args[1] if len(args) == 2 else None)
+            k = dict_key(args[0])
+            if isinstance(k, Rat):
+                raise AnalysisError("E3: dictionary lookup with a non-constant key (line %d)" % node.lineno)
+            return base.get(k, args[1] if len(args) == 2 else None)
         if attr in ("keys", "values", "items") and isinstance(base, dict) and not args:
             return list(getattr(base, attr)())
         if attr == "transpose" and not args:
             return self.np_transpose(base, node)
+        if attr in ("max", "min", "trace") and not isinstance(base, (dict, str)):
+            return self.np_call(attr, [base] + list(args), kwargs, node)
+        if attr in ("tolist", "flatten", "ravel") and not args and isinstance(base, Arr):
+            if attr == "tolist":
+                return base.copy().data
+            return Arr(list(base.flat()))
+        if attr == "astype" and len(args) == 1 and isinstance(base, Arr):
+            r = base.copy()
+            r.inherits_dtype = False
+            return r
         if attr == "copy" and not args:
             return base.copy() if isinstance(base, Arr) else base
         if attr == "sum" and not args and not kwargs:
@@ -1140,12 +1422,75 @@ class Evaluator:
                     return [rec(x) for x in d] if isinstance(d, list) else sg(d)
                 return Arr(rec(A.data))
             return sg(v)
+        if name == "outer" and len(args) == 2:
+            A = args[0] if isinstance(args[0], Arr) else materialise(args[0])
+            B = args[1] if isinstance(args[1], Arr) else materialise(args[1])
+            if A is not None and B is not None:
+                return Arr([[scalar(x) * scalar(y) for y in B.flat()] for x in A.flat()])
+            return Opaque("outer(%s,%s)" % (vkey(args[0]), vkey(args[1])))
+        if name in ("ones", "full") and len(args) >= 1:
+            shp = args[0]
+            dims = [const_int(x) for x in (shp if isinstance(shp, (list, tuple)) else [shp])]
+            if any(d is None for d in dims):
+                raise AnalysisError("E3: %s of non-constant shape (line %d)" % (name, node.lineno))
+            fill = Rat.const(1) if name == "ones" else scalar(args[1] if len(args) > 1 else kwargs.get("fill_value"))
+
+            def buildf(ds):
+                return [buildf(ds[1:]) for _ in range(ds[0])] if ds else fill
+            return Arr(buildf(dims))
+        if name == "trace" and len(args) == 1:
+            A = args[0] if isinstance(args[0], Arr) else materialise(args[0])
+            if A is not None and len(A.shape) == 2:
+                tot = Rat.const(0)
+                for i in range(min(A.shape)):
+                    tot = tot + scalar(A.data[i][i])
+                return tot
+        if name in ("hstack", "vstack", "concatenate", "stack") and len(args) == 1 and isinstance(args[0], (list, tuple)) \
+                and set(kwargs) <= {"axis"}:
+            parts = [x if isinstance(x, Arr) else materialise(x) for x in args[0]]
+            axis = const_int(kwargs.get("axis", 0))
+            if all(p is not None for p in parts) and parts and axis is not None:
+                ranks = {len(p.shape) for p in parts}
+                if len(ranks) == 1:
+                    rank = ranks.pop()
+                    if name == "stack" and axis == 0:
+                        return Arr([p.copy().data for p in parts])
+                    if name == "hstack":
+                        axis = 0 if rank == 1 else 1
+                    elif name == "vstack":
+                        if rank == 1:
+                            return Arr([p.copy().data for p in parts])
+                        axis = 0
+                    if name != "stack" and rank >= 1 and 0 <= axis < rank:
+                        def cat(ds, ax):
+                            if ax == 0:
+                                out = []
+                                for d in ds:
+                                    out.extend(d)
+                                return out
+                            n0 = {len(d) for d in ds}
+                            if len(n0) != 1:
+                                raise AnalysisError("E3: %s of incompatible shapes (line %d)" % (name, node.lineno))
+                            return [cat([d[i] for d in ds], ax - 1) for i in range(n0.pop())]
+                        return Arr(cat([p.copy().data for p in parts], axis))
+        if name == "linalg.qr" and len(args) == 1 and not kwargs:
+            A = args[0] if isinstance(args[0], Arr) else materialise(args[0])
+            if A is not None and len(A.shape) == 2 and A.shape[0] >= A.shape[1]:
+                # positive homogeneity (trusted identity of the factorisation): qr(s*M) = (Q(M), s*R(M)) for s > 0
+                content, prim = array_content(A)
+                m, k = A.shape
+                q = Opaque("qr(%s).Q" % prim.key(), (m, k))
+                r = materialise(Opaque("qr(%s).R" % prim.key(), (k, k)))
+                if not content.equals(1):
+                    r = self.binop(ast.Mult(), r, content, node)
+                return (materialise(q), r)
         if name == "linalg.solve" and len(args) == 2:
             return self.np_dot(self.np_call("linalg.inv", [args[0]], {}, node), args[1], node)
         if name == "linalg.det" and len(args) == 1:
             return Rat.atom("det(%s)" % vkey(args[0]))
         if name in ("concatenate", "linalg.qr", "unique", "argsort", "sort", "arange", "clip", "max", "min",
-                    "fliplr", "flipud", "mod", "allclose", "random.rand", "linalg.eig", "empty"):
+                    "fliplr", "flipud", "mod", "allclose", "random.rand", "linalg.eig", "empty", "hstack", "vstack", "stack", "outer",
+                    "trace", "argmin", "argmax", "where", "isclose", "any", "all"):
             return self.opaque_call(name, args, kwargs, node)
         raise AnalysisError("E3: numpy function %s unsupported (line %d)" % (name, node.lineno))
 
